@@ -228,6 +228,9 @@ def main(pid, tier, seed, replay=None):
     # a stage module run on its own (E2E, E2E3, RES: development aid) is not a property: its evidence goes to replays/
     is_property = bool(re.fullmatch(r'C\d\d', pid))
     evidence_path = os.path.join(common.VERIF, 'evidence' if is_property else 'replays', pid + ('.json' if is_property else '_stage_evidence.json'))
+    if replay:
+        # replaying one recorded input is not a check run: it must not replace the evidence of the last full run
+        evidence_path = os.path.join(common.VERIF, 'replays', pid + '_replay_evidence.json')
     scratch = common.Scratch()
     lines = []
     exit_code = 0
